@@ -94,17 +94,22 @@ OuterSyncLoop:
 
 			// One time operation, Inserts negative balance for the burn address that used during the attack
 			// We need to do this before main logic because sqlite db will be locked
+			var nullifyErr error
 			if d.Sync.Synced+1 == config.V20DevRewardsHeightActivation {
-				d.NullifyBurnAddress(ctx, tx, d.Sync.Synced+1)
+				nullifyErr = d.NullifyBurnAddress(ctx, tx, d.Sync.Synced+1)
 			}
-			if d.Sync.Synced+1 == config.V202EnhanceActivation {
-				d.NullifyBurnAddress(ctx, tx, d.Sync.Synced+1)
+			if nullifyErr == nil && d.Sync.Synced+1 == config.V202EnhanceActivation {
+				nullifyErr = d.NullifyBurnAddress(ctx, tx, d.Sync.Synced+1)
 			}
 
 			// We are not synced, so we need to iterate through the dblocks and sync them
 			// one by one. We can only sync our current synced height +1
 			// TODO: This skips the genesis block. I'm sure that is fine
-			if err := d.SyncBlock(ctx, tx, d.Sync.Synced+1); err != nil {
+			err = nullifyErr
+			if err == nil {
+				err = d.SyncBlock(ctx, tx, d.Sync.Synced+1)
+			}
+			if err != nil {
 				hLog.WithError(err).Errorf("failed to sync height")
 				time.Sleep(retryPeriod)
 				// If we fail, we backout to the outer loop. This allows error handling on factomd state to be a bit
@@ -215,6 +220,7 @@ func (d *Pegnetd) NullifyMintedTokens(ctx context.Context, tx *sql.Tx, height ui
 		fLog.WithFields(log.Fields{
 			"err": err,
 		}).Info("zeroing burn | balances retrieval failed")
+		return err
 	}
 
 	for _, tokenSupply := range MintTotalSupplyMap {
@@ -274,6 +280,7 @@ func (d *Pegnetd) NullifyBurnAddress(ctx context.Context, tx *sql.Tx, height uin
 		fLog.WithFields(log.Fields{
 			"err": err,
 		}).Info("zeroing burn | balances retrieval failed")
+		return err
 	}
 
 	i := 0 // value to keep witin 0-9 range for mock tx
@@ -292,6 +299,7 @@ func (d *Pegnetd) NullifyBurnAddress(ctx context.Context, tx *sql.Tx, height uin
 				"ticker":  ticker,
 				"balance": value,
 			}).Info("zeroing burn | substract from balance failed")
+			return err
 		}
 
 		// We need to mock a TXID to record nullify recrods
@@ -322,7 +330,10 @@ func (d *Pegnetd) NullifyBurnAddress(ctx context.Context, tx *sql.Tx, height uin
 				fLog.WithFields(log.Fields{
 					"error": err,
 				}).Info("zeroing burn | coinbase tx failed")
-				return err
+				// Not reported to the caller, which now fails the block on an error:
+				// recording can fail for good (the mock txid may collide with the
+				// txid of a staking payout), and that has never stopped the sync.
+				return nil
 			}
 		}
 	}
@@ -490,10 +501,16 @@ func (d *Pegnetd) SyncBlock(ctx context.Context, tx *sql.Tx, height uint32) erro
 				// We need to handle the no rates case. Miners could avoid mining this last block.
 				// use the last valid rates from last block
 				rates, err = d.Pegnet.SelectPendingRates(ctx, tx, height-1)
+				if err != nil {
+					return err
+				}
 			}
 
 			if (rates == nil || len(rates) == 0) && height >= config.V202EnhanceActivation {
 				rates, _, err = d.Pegnet.SelectMostRecentRatesBeforeHeight(ctx, tx, height)
+				if err != nil {
+					return err
+				}
 			}
 
 			// If no rates for second time, skip Snapshot logic
@@ -575,6 +592,7 @@ func (d *Pegnetd) SyncBlock(ctx context.Context, tx *sql.Tx, height uint32) erro
 		err := d.DevelopersPayouts(tx, fLog, height, dblock.Timestamp, developersList)
 		if err != nil {
 			fLog.WithFields(log.Fields{"section": "devReward", "reason": "developer reward"}).Tracef("something wrong happend during dev payout execution")
+			return err
 		}
 	}
 
